@@ -27,7 +27,12 @@ def fh(f):
 
 
 def contra_term(r):
-    return "(%s, %s, %s, %s)" % (bh(r["b1"]), bh(r["b2"]), cbool(r["r12"]), cbool(r["r21"]))
+    return "(%s, %s, %s, %s, %s, %s, %s)" % (bh(r["b1"]), bh(r["b2"]), cbool(r["r12"]), cbool(r["r21"]), cbool(r.get("a12", r["r12"])),
+                                             cbool(r.get("a21", r["r21"])), cbool(r.get("self", False)))
+
+
+def prio_term(r):
+    return "(%s, %d, %d, %d, %d, %s)" % (cbool(r["v2"]), r["hm"], r["hh"], r["height"], r["mhp"], cbool(r["r"]))
 
 
 def fc_term(r):
@@ -41,6 +46,20 @@ def evaluate(ck, recs):
     rc = ck.coq_eval(IMPORTS, "contra_case", "check_contra", [contra_term(r) for r in contra], shard=2500, tag="contra")
     rf = ck.coq_eval(IMPORTS, "fc_obs", "check_fc", [fc_term(r) for r in fc], shard=1500, tag="fc")
     rd = ck.coq_eval(IMPORTS, "fc_obs", "check_dispatch", [fc_term(r) for r in fc], shard=1500, tag="fcd")
+    pr = [r for r in recs if r["k"] in ("prio", "synced")]
+    rp = ck.coq_eval(IMPORTS, "prio_case", "check_prio", [prio_term(r) for r in pr], shard=3000, tag="prio")
+    for r, code in zip(pr, rp or []):
+        ck.count()
+        ck.nontrivial((r["k"], r["v2"], r["r"], (r["mhp"] > r["hm"]) - (r["mhp"] < r["hm"]), (r["height"] > r["hh"]) - (r["height"] < r["hh"])))
+        if r.get("err"):
+            code = max(code, 1)
+        if code != 0:
+            name = "API.HeaderHasPriority" if r["k"] == "prio" else "Executer.Synced"
+            ck.failures.append(dict(
+                kind="input", key="c07:%s:%s" % (r["k"], "spec" if code >= 2 else "model"), case=r, spec_violated=code >= 2,
+                what="%s: implementation %s on %s" % (name, "is not the strict LIP-0014 order on (maxHeightPrevoted, height)"
+                                                      if code >= 2 else "differs from the proved model", json.dumps(r)),
+                theorem_or_correspondence="Corr.C07.check_prio vs %s (C07_priority_is_lip14_order)" % name))
     for r, code in zip(fc, rd or []):
         if code != 0:
             f = dict(kind="input", key="c07:dispatch:%s" % ("spec" if code >= 2 else "model"), case=r,
@@ -100,7 +119,14 @@ def run(ck):
             c02.evaluate(ck, hrecs, tag="hist")
             ck.extra["liskbft_histories"] = len(hrecs)
             ck.extra["liskbft_contradiction_flags_seen"] = sum(1 for c in hrecs for o in c["obs"] if o["contra"])
-    for r in recs[:1] + [x for x in recs if x["k"] == "contra" and x["r12"]][:1] + [x for x in recs if x["k"] == "fc"][:2]:
+    ck.obligations += 1
+    kinds = {k: sum(1 for r in recs if r["k"] == k) for k in ("contra", "fc", "prio", "synced")}
+    ck.extra["records_by_kind"] = kinds
+    if all(kinds.values()) and any(r["k"] == "synced" and r["r"] for r in recs) and any(r["k"] == "fc" and r["bits"][3] for r in recs):
+        ck.discharged += 1
+    else:
+        ck.fail_obligation("generator", "a record kind is missing, or no Synced=true / tie-break=true observation: %s" % kinds)
+    for r in recs[:1] + [x for x in recs if x["k"] == "contra" and x["r12"]][:1] + [x for x in recs if x["k"] == "fc"][:2] + [x for x in recs if x["k"] == "synced"][:1]:
         ck.sample(r)
     ck.cov["rule"] = ("contradiction: exhaustive over all ordered header pairs with height/maxHeightGenerated/maxHeightPrevoted "
                       "in 0..R and two generators (R=3 quick, 4 thorough) + random/correlated uint32 pairs; fork choice: random "
@@ -110,7 +136,7 @@ def run(ck):
     ck.cov["exhaustive"] = True
     ck.extra["exhaustive_domain"] = "contradiction pairs over the small range only"
     ck.extra["traces_validated_against_impl"] = len(recs)
-    ck.assume += ["time.Now() stays within the chosen 1000 s slot during one NewForkChoice call (checked after the call)",
+    ck.assume += ["time.Now() stays within the chosen slot (block times 10..7200 s) during one NewForkChoice call (checked after the call)",
                   "block IDs / addresses are compared with bytes.Equal; the model uses injective integer codes for them"]
     if ck.tier == "thorough":
         ck.coqchk(["LE.Properties.C07"])
@@ -123,13 +149,19 @@ def replay(ck, path):
         print("replay names a broken obligation, no input: %s" % doc.get("what"))
         run(ck)
         return ck.finish(LEVEL)
-    if case["k"] == "contra":
+    if case["k"] in ("contra", "fc", "prio"):
+        # fork-choice cases read the wall clock: the harness shifts genesis and all timestamps by (now - recorded now), which
+        # leaves every slot number unchanged, and re-runs the implementation
         binp = ck.go_build("c07")
         inp = ck.work + "/replay_in.jsonl"
         open(inp, "w").write(json.dumps(case) + "\n")
         recs = ck.run_harness(binp, ["-in", inp], out_name="replay.jsonl")
+    elif case["k"] == "synced":
+        print("Executer.Synced case (node-dependent): re-generated by a full run")
+        run(ck)
+        return ck.finish(LEVEL)
     else:
-        recs = [case]  # time-dependent observation: re-evaluate the recorded observation against model and oracle
+        recs = [case]
     if recs is not None:
         evaluate(ck, recs)
         print("replayed: %s" % json.dumps(recs))
